@@ -28,6 +28,8 @@ pub struct Block {
     raw_size: usize,
     raw_align: usize,
     rz: usize,
+    /// bytes handed out beyond the requested size (an allocator may return a longer block)
+    slack: usize,
     pub id: u64,
 }
 
@@ -46,6 +48,8 @@ pub struct Ledger {
     pub refuse_nth: Option<u64>,
     /// refuse requests larger than this
     pub limit: Option<usize>,
+    /// every block is this many bytes longer than requested, and says so in the returned slice
+    pub slack: usize,
     pub refused: Vec<(usize, usize)>,
     /// every request (size, align) since the last `begin_op`
     pub requests: Vec<(usize, usize)>,
@@ -87,7 +91,7 @@ fn verify_zones(b: &Block) -> Option<String> {
                 b.id, b.size, b.align, b.rz - i
             ));
         }
-        let rear = std::slice::from_raw_parts((b.user + b.size) as *const u8, b.rz);
+        let rear = std::slice::from_raw_parts((b.user + b.size + b.slack) as *const u8, b.rz);
         if let Some(i) = rear.iter().position(|x| *x != REAR_POISON) {
             return Some(format!(
                 "rear red zone of block #{} (size {} align {}) overwritten at offset {} past the end",
@@ -234,11 +238,12 @@ unsafe impl Allocator for CheckAlloc {
                     return Err(());
                 }
             }
+            let slack = l.slack;
             let (rz, raw_size, raw_align) = if l.passthrough {
-                (0, size.max(1), align)
+                (0, (size + slack).max(1), align)
             } else {
                 let rz = align.max(64);
-                (rz, size + 2 * rz, align.max(16))
+                (rz, size + slack + 2 * rz, align.max(16))
             };
             let raw = unsafe { System.alloc(Layout::from_size_align(raw_size, raw_align).unwrap()) };
             if raw.is_null() {
@@ -250,8 +255,8 @@ unsafe impl Allocator for CheckAlloc {
             if rz != 0 {
                 unsafe {
                     std::ptr::write_bytes(raw, FRONT_POISON, rz);
-                    std::ptr::write_bytes(user as *mut u8, FRESH_POISON, size);
-                    std::ptr::write_bytes((user + size) as *mut u8, REAR_POISON, rz);
+                    std::ptr::write_bytes(user as *mut u8, FRESH_POISON, size + slack);
+                    std::ptr::write_bytes((user + size + slack) as *mut u8, REAR_POISON, rz);
                 }
             }
             let id = l.next_id;
@@ -266,21 +271,22 @@ unsafe impl Allocator for CheckAlloc {
                     raw_size,
                     raw_align,
                     rz,
+                    slack,
                     id,
                 },
             );
             l.n_alloc += 1;
             l.bytes_live += size;
             l.peak_bytes = l.peak_bytes.max(l.bytes_live);
-            Ok(user)
+            Ok((user, slack))
         });
         if let Some(m) = bad {
             violation("C12", "invalid-layout-requested", m);
         }
         match r {
-            Ok(user) => {
+            Ok((user, slack)) => {
                 let p = unsafe { NonNull::new_unchecked(user as *mut u8) };
-                Ok(NonNull::slice_from_raw_parts(p, size))
+                Ok(NonNull::slice_from_raw_parts(p, size + slack))
             }
             Err(()) => Err(AllocError),
         }
